@@ -50,6 +50,26 @@ func checkIdentity(in *graph.Instance, wrap *graph.WrapPP) (labels []string, non
 			}
 		}
 	}
+	// what lookups made from Init during the start were handed counts like a holder's field
+	for i, b := range in.Behs {
+		if b == nil || i >= len(in.Comps) || !in.WasCreated(i) {
+			continue
+		}
+		for _, r := range b.Looked {
+			if r.Err != nil || r.Got == nil {
+				continue
+			}
+			// programmatic lookups are not injection points (the container cannot know the caller): they count only where
+			// the container itself decides what to publish - no substitution at all, or substitution at early-reference
+			// time only
+			if wrap != nil {
+				if pl, ok := wrap.Plan[r.Name]; ok && (pl.Early != graph.WrapNew || pl.Before != 0 || pl.Inst != 0 || pl.After == graph.WrapNew) {
+					continue
+				}
+			}
+			seen[r.Name] = append(seen[r.Name], sight{in.Comp(i).Name, "Init-lookup", r.Got})
+		}
+	}
 	// by-name lookups (also creates lazies that nobody needed: legitimate)
 	lookup := map[string]any{}
 	lookupFailed := false
